@@ -244,7 +244,7 @@ func hostileQueries(rng *rand.Rand, hr *HistRun, latest int64, n int) []hostileQ
 }
 
 func checkC09(c *Ctx) {
-	c.rule = "hostile inputs against a live replica process holding a non-trivial state (stakes, proposals, contracts): random bytes, truncated / bit-flipped valid encodings, signed and unsigned envelopes with hostile field values (address lengths 0..1000, amounts/prices at 0, 2^255+-1, 2^256-1, 33-byte encodings, gas 0/2^63/2^64-1, unknown and negative types, payload/type mismatches, hostile payloads per type, unknown senders, odd signatures) on CheckTx and inside blocks on DeliverTx; queries over every path x data length {0,1,19,20,31,32,33,39,40,41,100,5000} x height {-1,0,1,latest-1,latest,latest+1,+-2^62}; delayed effects: accepted hostile proposals are voted in and run to their applying height. Oracle: the process stays alive, every call returns, a canary (known account query + a valid transfer) still works after every batch. distinct = distinct (input class, response code) pairs"
+	c.rule = "hostile inputs against a live replica process holding a non-trivial state (stakes, proposals, contracts): random bytes, truncated / bit-flipped valid encodings, signed and unsigned envelopes with hostile field values (address lengths 0..1000, amounts/prices at 0, 2^255+-1, 2^256-1, 33-byte encodings, gas 0/2^63/2^64-1, unknown and negative types, payload/type mismatches, hostile payloads per type, unknown senders, odd signatures) on CheckTx and inside blocks on DeliverTx; queries over every path x data length {0,1,19,20,31,32,33,39,40,41,100,5000} x height {-1,0,1,latest-1,latest,latest+1,+-2^62}; delayed effects: accepted hostile proposals are voted in and run to their applying height. One third of the replicas run the -race build (a race report is a violation), one third the AddressSanitizer build (Go code and the cgo secp256k1 library instrumented; a report kills the process and is reported as a node death). Oracle: the process stays alive, every call returns, a canary (known account query + a valid transfer) still works after every batch. distinct = distinct (input class, response code) pairs"
 	n := c.N(6, 80)
 	c.Parallel(n, 0, func(i int) {
 		rng := c.Rng("c09", i)
@@ -261,18 +261,19 @@ func checkC09(c *Ctx) {
 			return
 		}
 		race := i%3 == 0
-		c.fuzzReplica(i, hr, o, rng, race)
+		asan := i%3 == 1 && selfBinAsan != ""
+		c.fuzzReplica(i, hr, o, rng, race, asan)
 		if i < 2 {
-			c.Sample(map[string]interface{}{"history": o.Name, "race_binary": race})
+			c.Sample(map[string]interface{}{"history": o.Name, "race_binary": race, "asan_binary": asan})
 		}
 	})
 	c.delayedProposalCrashes()
 	c.Require("hostile.checktx", "hostile.delivertx", "hostile.query", "canaries-ok")
 }
 
-func (c *Ctx) fuzzReplica(i int, hr *HistRun, o *HistOpts, rng *rand.Rand, race bool) {
+func (c *Ctx) fuzzReplica(i int, hr *HistRun, o *HistOpts, rng *rand.Rand, race, asan bool) {
 	open := func() *Replica {
-		r, _, err := openReplica(c, hr.Dir, hr.G.G, SpawnOpt{Race: race, Env: []string{"GORACE=halt_on_error=0"}}, false)
+		r, _, err := openReplica(c, hr.Dir, hr.G.G, SpawnOpt{Race: race, Asan: asan, Env: []string{"GORACE=halt_on_error=0", "ASAN_OPTIONS=detect_leaks=0:abort_on_error=1"}}, false)
 		if err != nil {
 			c.Err(i, "reopen", err)
 			return nil
@@ -414,6 +415,10 @@ func (c *Ctx) fuzzReplica(i int, hr *HistRun, o *HistOpts, rng *rand.Rand, race 
 			c.Violation(i, "data-race-under-hostile-input", r.StderrAll(), nil)
 		}
 		c.Count("race-binary-runs", 1)
+	}
+	if asan {
+		// an AddressSanitizer report is process-fatal: it would have been reported above as a node death
+		c.Count("asan-binary-runs", 1)
 	}
 }
 
